@@ -185,8 +185,9 @@ def run(ctx, rep):
         if key not in found:
             rep.note("stale REJECTDOM table entry (rejection no longer present): %s" % (key,))
     # input-relative rejections must match what an entry / sub-metadata costs
-    from .C01 import g1justify
+    from .C01 import g1justify, wiresig
     g1justify(ctx, rep, only_class=dec_cls, floor=2)
+    wiresig(ctx, rep, ids=("md_string", "md_tree", "md_geometry", "header"))
     rep.add(Obligation("REJECTDOM", dec_cls, "inventory closed", "-", DISCHARGED,
                        detail="%d non-input-relative rejections found in %s, all listed with their "
                               "writer-side counterpart" % (len(found), dec_cls), trivial=True))
